@@ -260,10 +260,21 @@ def gen_ctr(ctx):
 # ---------------------------------------------------------------------------- sub-checks
 
 def _models(ctx, sub):
+    """the extracted model runner, started through a wrapper that lifts the stack limit: the
+    extracted list functions are not tail recursive and thorough-tier streams have 10^6 bytes"""
     mexe, err = vlib.build_model("aes")
     if not mexe:
         ctx.fail(sub, "tie", "", err)
-    return mexe
+        return None
+    wrap = mexe + "_bigstack"
+    text = "#!/bin/sh\nulimit -s unlimited 2>/dev/null || ulimit -s 4000000 2>/dev/null\nexec %s \"$@\"\n" % mexe
+    if not os.path.exists(wrap) or open(wrap).read() != text:
+        tmp = "%s.%d" % (wrap, os.getpid())
+        with open(tmp, "w") as f:
+            f.write(text)
+        os.chmod(tmp, 0o755)
+        os.replace(tmp, wrap)
+    return wrap
 
 
 ASAN_ENV = {"ASAN_OPTIONS": "detect_leaks=1:abort_on_error=0:malloc_fill_byte=190:max_malloc_fill_size=4096"}
